@@ -102,6 +102,11 @@ def _havoc_for_loop(interp, st, env, spec):
     from .callspec import havoc_lvalue
     names = assigned_names(st.body)
     explicit = list(spec.get("modifies", []))
+    # variables whose type changes inside the loop get a declared shape
+    for nm, sh in (spec.get("types") or {}).items():
+        env.assign(nm, interp.fresh(sh, "loop_" + nm))
+        if nm in names:
+            names.remove(nm)
     for nm in names:
         if nm in explicit:
             continue
